@@ -136,6 +136,51 @@ Section Safe.
   Lemma SafeAdds_app : forall a b, SafeAdds a -> SafeAdds b -> SafeAdds (a ++ b).
   Proof. intros. apply Forall_app. split; assumption. Qed.
 
+  Lemma fix_input_eq : forall igs0 ix n c f cs,
+    fix_input igs0 (Input ix n c f cs) =
+    match fix_filter igs0 f, fix_inputs igs0 cs with
+    | Some (f', d, a), Some (cs', dc, ac) => Some (Input ix n c f' cs', d ++ dc, a ++ ac)
+    | _, _ => None
+    end.
+  Proof.
+    intros igs0 ix n c f cs. simpl. destruct (fix_filter igs0 f) as [[[f' d] a]|]; [|reflexivity].
+    assert (E : (fix go (l : list input) : option (list input * list str * list addreq) :=
+                   match l with
+                   | [] => Some ([], [], [])
+                   | x :: r =>
+                       match fix_input igs0 x, go r with
+                       | Some (x', d0, a0), Some (r', ds, as_) => Some (x' :: r', d0 ++ ds, a0 ++ as_)
+                       | _, _ => None
+                       end
+                   end) cs = fix_inputs igs0 cs).
+    { induction cs as [|x r IH]; [reflexivity|]. simpl. rewrite IH. reflexivity. }
+    rewrite E. reflexivity.
+  Qed.
+
+  Lemma fix_input_safe : forall igs0, Forall SafeIg igs0 -> forall i i' d a,
+    Forall (fun x => SafeFilter (i_flt x)) (flat_input i) ->
+    fix_input igs0 i = Some (i', d, a) ->
+    Forall (fun x => SafeFilter (i_flt x)) (flat_input i') /\ SafeAdds a.
+  Proof.
+    intros igs0 Higs. induction i as [ix n c f cs IH] using input_ind'. intros i' d a Hi H.
+    rewrite fix_input_eq in H.
+    destruct (fix_filter igs0 f) as [[[f' d1] a1]|] eqn:Hf; [|discriminate].
+    destruct (fix_inputs igs0 cs) as [[[cs' dc] ac]|] eqn:Hc; [|discriminate].
+    inversion H; subst; clear H. simpl in Hi. apply Forall_cons_iff in Hi as [Hhd Hcs].
+    destruct (fix_filter_safe _ _ _ _ _ Higs Hhd Hf) as [Hf' Ha1].
+    assert (Hrec : Forall (fun x => SafeFilter (i_flt x)) (flat_map flat_input cs') /\ SafeAdds ac).
+    { clear Hf Hf' Ha1 Hhd. revert cs' dc ac Hc. induction cs as [|x r IHr]; intros cs' dc ac Hc; simpl in Hc.
+      - inversion Hc; subst. split; constructor.
+      - apply Forall_cons_iff in IH as [IHx IHrest]. simpl in Hcs. apply Forall_app in Hcs as [Hx Hr].
+        destruct (fix_input igs0 x) as [[[x' dx] ax]|] eqn:Ex; [|discriminate].
+        destruct (fix_inputs igs0 r) as [[[r' dr] ar]|] eqn:Er; [|discriminate].
+        inversion Hc; subst; clear Hc.
+        destruct (IHx _ _ _ Hx eq_refl) as [Hx' Hax]. destruct (IHr IHrest Hr _ _ _ eq_refl) as [Hr' Har].
+        split; [simpl; apply Forall_app; split; assumption|apply SafeAdds_app; assumption]. }
+    destruct Hrec as [Hcs' Hac]. split; [|apply SafeAdds_app; assumption].
+    simpl. constructor; [exact Hf'|exact Hcs'].
+  Qed.
+
   Lemma fix_inputs_safe : forall igs0 l l' d a,
     Forall SafeIg igs0 -> Forall (fun i => SafeFilter (i_flt i)) (all_inputs l) ->
     fix_inputs igs0 l = Some (l', d, a) ->
@@ -143,16 +188,14 @@ Section Safe.
   Proof.
     intros igs0. induction l as [|i l IH]; intros l' d a Higs Hl H; simpl in H.
     - inversion H; subst. split; constructor.
-    - destruct i as [ix n c f cs].
-      destruct (fix_filter igs0 f) as [[[f' d1] a1]|] eqn:Hf; try discriminate.
-      destruct (fix_inputs igs0 l) as [[[r' ds] as_]|] eqn:Hr; try discriminate.
+    - destruct (fix_input igs0 i) as [[[i' d1] a1]|] eqn:Hi; [|discriminate].
+      destruct (fix_inputs igs0 l) as [[[r' ds] as_]|] eqn:Hr; [|discriminate].
       inversion H; subst; clear H.
-      unfold all_inputs in Hl. simpl in Hl. apply Forall_cons_iff in Hl as [Hhd Htl].
-      apply Forall_app in Htl as [Hcs Hrest].
-      destruct (fix_filter_safe _ _ _ _ _ Higs Hhd Hf) as [Hf' Ha1].
+      unfold all_inputs in Hl. simpl in Hl. apply Forall_app in Hl as [Hhd Hrest].
+      destruct (fix_input_safe igs0 Higs i i' d1 a1 Hhd Hi) as [Hi' Ha1].
       destruct (IH _ _ _ Higs Hrest eq_refl) as [Hr' Has].
       split; [|apply SafeAdds_app; assumption].
-      unfold all_inputs. simpl. constructor; [assumption|]. apply Forall_app. split; assumption.
+      unfold all_inputs. simpl. apply Forall_app. split; assumption.
   Qed.
 
   Lemma fix_block_safe : forall igs0 l l' d a,
